@@ -45,6 +45,7 @@ def jobs(tier, seed):
     m = 8 if q else 32
     js += [{"sub": "registers", "chunk": i, "of": m} for i in range(m)]
     js += [{"sub": "acyclic", "chunk": i, "of": 4} for i in range(4)]
+    js += [{"sub": "chain", "chunk": i, "of": 4} for i in range(4)]
     return js
 
 
@@ -383,10 +384,58 @@ def run_acyclic(job, acc):
         acc.sample({"desc": desc})
 
 
+# --- chains of transforms (start from non-initial states) ----------------------------------------------
+
+
+def chain_descs():
+    for t in space.MULTI:
+        for m in (5, 6):
+            base_nodes, roles = operand_kit(m)
+            nodes = base_nodes + [["g", t, roles, True], ["h", "not", ["g"], True], ["w", "xor", ["g", "i0"], True],
+                                  ["v", "and", ["g", "i1", "i0"], True], ["z", "nor", ["g", "R0"], True]]
+            yield {"name": "top", "nodes": nodes}
+    yield from itertools.islice(fanout_descs(6), 0, 20)
+
+
+def check_chain(acc, desc, steps):
+    import circuitgraph as cg
+
+    case = {"kind": "chain", "desc": desc, "steps": steps}
+    c = space.build(desc)
+    r = c
+    for i, (which, k) in enumerate(steps):
+        acc.transitions += 1
+        try:
+            r = cg.tx.limit_fanin(r, k) if which == "fanin" else cg.tx.limit_fanout(r, k)
+        except Exception as e:  # noqa: BLE001
+            acc.violation("chain", f"{which}-raises:{common.exc_name(e)}", case, repr(e))
+            return
+    which, k = steps[-1]
+    deg = r.graph.pred if which == "fanin" else r.graph.succ
+    over = [n for n in r.graph.nodes if len(deg[n]) > k]
+    if over:
+        acc.violation("chain", f"{which}-above-k-after-chain", case, sorted(over))
+        return
+    if same_functions(acc, "chain", case, c, r):
+        acc.outcome("chain-ok")
+
+
+def run_chain(job, acc):
+    ks = (2, 3, 4, 5)
+    steps_all = [[(a, ka), (b, kb)] for a in ("fanin", "fanout") for ka in ks for b in ("fanin", "fanout") for kb in ks]
+    steps_all += [[("fanin", 4), ("fanin", 3), ("fanin", 2)], [("fanout", 4), ("fanin", 3), ("fanout", 2)], [("fanin", 5), ("fanout", 2), ("fanin", 2)]]
+    for _idx, desc in space.chunk(chain_descs(), job["chunk"], job["of"]):
+        for steps in steps_all:
+            acc.states += 1
+            acc.nontrivial += 1
+            check_chain(acc, desc, [list(s) for s in steps])
+        acc.sample({"desc": desc, "steps": steps_all[0]})
+
+
 def run(job):
     common.setup_paths()
     acc = Acc(job)
-    {"fanin-wide": run_fanin_wide, "fanin-gen": run_fanin_gen, "fanout": run_fanout, "registers": run_registers,
+    {"chain": run_chain, "fanin-wide": run_fanin_wide, "fanin-gen": run_fanin_gen, "fanout": run_fanout, "registers": run_registers,
      "acyclic": run_acyclic}[job["sub"]](job, acc)
     return acc.result()
 
@@ -401,6 +450,8 @@ def replay(case, job):
         check_fanout(acc, case["desc"], case["k"])
     elif k == "registers":
         check_registers(acc, case["desc"], case["num_stages"])
+    elif k == "chain":
+        check_chain(acc, case["desc"], case["steps"])
     else:
         check_acyclic(acc, case["desc"])
     return acc.result()
